@@ -72,7 +72,16 @@ func point(op string) {
 	}
 }
 
+// stepMu serialises mutating steps together with their observer call, so
+// that a crash image is a consistent cut: no other step runs between the
+// system call and the copy of the directory.
+var stepMu sync.Mutex
+
+func begin() { stepMu.Lock() }
+func abort() { stepMu.Unlock() }
+
 func mutated(op, path string) {
+	defer stepMu.Unlock()
 	n := int(steps.Add(1))
 	obsMu.Lock()
 	o := observer
@@ -96,9 +105,12 @@ func wrap(f *os.File, err error, path string) (*File, error) {
 
 func Create(name string) (*File, error) {
 	point("create")
+	begin()
 	f, err := wrapPath(name)(os.Create(name))
 	if err == nil {
 		mutated("create", name)
+	} else {
+		abort()
 	}
 	return f, err
 }
@@ -120,9 +132,12 @@ func OpenFile(name string, flag int, perm FileMode) (*File, error) {
 			existed = false
 		}
 	}
+	begin()
 	f, err := wrapPath(name)(os.OpenFile(name, flag, perm))
 	if err == nil && ((flag&O_CREATE != 0 && !existed) || flag&O_TRUNC != 0) {
 		mutated("openfile", name)
+	} else {
+		abort()
 	}
 	return f, err
 }
@@ -134,9 +149,12 @@ func (f *File) Sync() error                        { return f.f.Sync() }
 func (f *File) Seek(o int64, w int) (int64, error) { return f.f.Seek(o, w) }
 func (f *File) Truncate(n int64) error {
 	point("truncate")
+	begin()
 	err := f.f.Truncate(n)
 	if err == nil {
 		mutated("truncate", f.path)
+	} else {
+		abort()
 	}
 	return err
 }
@@ -153,10 +171,12 @@ func (f *File) ReadAt(b []byte, off int64) (int, error) {
 
 func (f *File) Write(b []byte) (int, error) {
 	point("write")
-	n, err := f.f.Write(b)
-	if f.f != os.Stdout && f.f != os.Stderr {
-		mutated("write", f.path)
+	if f.f == os.Stdout || f.f == os.Stderr {
+		return f.f.Write(b)
 	}
+	begin()
+	n, err := f.f.Write(b)
+	mutated("write", f.path)
 	return n, err
 }
 
@@ -164,6 +184,7 @@ func (f *File) WriteString(s string) (int, error) { return f.Write([]byte(s)) }
 
 func (f *File) WriteAt(b []byte, off int64) (int, error) {
 	point("writeat")
+	begin()
 	n, err := f.f.WriteAt(b, off)
 	mutated("writeat", f.path)
 	return n, err
@@ -182,12 +203,15 @@ func ReadFile(name string) ([]byte, error) {
 // that "present but empty" exists as a step boundary.
 func WriteFile(name string, data []byte, perm FileMode) error {
 	point("writefile-open")
+	begin()
 	f, err := os.OpenFile(name, os.O_WRONLY|os.O_CREATE|os.O_TRUNC, perm)
 	if err != nil {
+		abort()
 		return err
 	}
 	mutated("writefile-open", name)
 	point("writefile-write")
+	begin()
 	_, err = f.Write(data)
 	mutated("writefile-write", name)
 	if err1 := f.Close(); err1 != nil && err == nil {
@@ -197,31 +221,41 @@ func WriteFile(name string, data []byte, perm FileMode) error {
 }
 
 func MkdirAll(path string, perm FileMode) error {
+	begin()
 	_, serr := os.Stat(path)
 	err := os.MkdirAll(path, perm)
 	if err == nil && serr != nil {
 		mutated("mkdirall", path)
+	} else {
+		abort()
 	}
 	return err
 }
 
 func Mkdir(path string, perm FileMode) error {
+	begin()
 	err := os.Mkdir(path, perm)
 	if err == nil {
 		mutated("mkdir", path)
+	} else {
+		abort()
 	}
 	return err
 }
 
 func Remove(name string) error {
+	begin()
 	err := os.Remove(name)
 	if err == nil {
 		mutated("remove", name)
+	} else {
+		abort()
 	}
 	return err
 }
 
 func RemoveAll(name string) error {
+	begin()
 	err := os.RemoveAll(name)
 	mutated("removeall", name)
 	return err
@@ -229,9 +263,12 @@ func RemoveAll(name string) error {
 
 func Rename(a, b string) error {
 	point("rename")
+	begin()
 	err := os.Rename(a, b)
 	if err == nil {
 		mutated("rename", b)
+	} else {
+		abort()
 	}
 	return err
 }
